@@ -112,7 +112,7 @@ def repo_hash():
 
 def make_worlds(tier):
     rnd = random.Random(f"corpus:{seed()}")
-    n_rand, n_feas = (140, 60) if tier == "quick" else (6000, 2000)
+    n_rand, n_feas = (110, 40) if tier == "quick" else (6000, 2000)
     ws = []
     for w in worlds.directed_worlds():
         w = dict(w)
@@ -220,7 +220,7 @@ def corpus(tier):
         recs = tr["recs"]
         end = tr["end"]
         last_ev = next((r for r in reversed(recs) if r["k"] == "ev"), None)
-        ended = bool(last_ev is not None and last_ev["ty"] == 13 and not end["exc"] and not end["hang"])
+        ended = bool((last_ev is not None and last_ev["ty"] == 13 and not end["exc"] and not end["hang"]) or end.get("truncated"))
         for r in recs:
             if r["k"] == "ev":
                 counts[f"ev{r['ty']}"] = counts.get(f"ev{r['ty']}", 0) + 1
@@ -247,6 +247,7 @@ def corpus(tier):
                 "world": {k: v for k, v in w.items()},
             }
         )
+    counts["truncated_long_runs"] = sum(1 for t in traces if t.get("end", {}).get("truncated"))
     out["counts"] = counts
     out["t_total"] = round(time.time() - t0, 1)
     # keep the cache small: drop world descriptions of clean random worlds beyond the first 20
